@@ -18,7 +18,8 @@ CLAIMED = {
         "declaration iff it is WellFormed (+ no trap / no-path-to-final under strict_states), reject otherwise, and "
         "warn iff a trap or no-path state exists - for all numbers of states and transitions. Tied to /repo by "
         "running every declaration over 1-2 states and every one-initial declaration over 3 states (exhaustive "
-        "sub-spaces, see evidence) plus seeded random 1-6 state declarations through the real metaclass and "
+        "sub-spaces, see evidence) plus seeded random 1-6 state declarations (40% of them also as a base class "
+        "plus a subclass adding transitions and from_.any() declarations) through the real metaclass and "
         "comparing accepted / warned / InvalidDefinition with the model, verdicts computed inside coqc.",
         "Coq proof (BFS = reachability, checks = WellFormed) + exhaustive/random differential correspondence",
         "DESIGN.md 5 C09",
@@ -146,12 +147,14 @@ CLAIMED["C08"] = (
     "redundant parentheses, names containing v / not / and / or) given to a real transition as cond or unless, "
     "the names being properties / methods / attributes of machine / model / listener, under several valuations "
     "in turn; fired-or-not, TypeError and the read order are compared in coqc with the model, and the model's "
-    "Python semantics with CPython.  Malformed stream: unparsable text, constructs outside the grammar and "
+    "Python semantics with CPython; the rewriting of ! ^ v is modelled on character codes (names with at least "
+    "two word characters are proved untouched, the result proved free of ^ and of ! outside !=) and compared "
+    "character by character with the real replace_operators on random ASCII texts.  Malformed stream: unparsable text, constructs outside the grammar and "
     "unknown names must raise InvalidDefinition at StateMachine().",
     "Coq proof (guard conjunction; build_expression = Python evaluation) + three-way differential correspondence (library / model / CPython eval)",
     "DESIGN.md 5 C08",
-    "Partial: the textual layer (regex rewriting of ! ^ v and CPython's parser/precedence) is validated by the "
-    "three-way correspondence, not proved.  Several guard entries per transition and both engines are "
+    "Partial: CPython's parser / precedence on the rewritten text is validated by the three-way "
+    "correspondence, not proved.  Several guard entries per transition and both engines are "
     "generated.  Three genuine defects repaired (fix: 6fb3a72, fix: 198c81d, fix: c06e898 executor key ignored "
     "grouping).")
 
@@ -182,7 +185,8 @@ CLAIMED["C13"] = (
     "invoked).  " + ENG_TIE + "Here the events of each history go through a random mix of the five calling "
     "styles (results, exceptions, state, allowed_events, callbacks compared), and an attribute probe passes "
     "every name in dir(sm) that is not a declared event (~150 per machine) plus odd strings to send() on fresh "
-    "instances, requiring unknown-event behaviour and no side effect.",
+    "instances, requiring unknown-event behaviour and no side effect; a family of machines is created by a "
+    "MachineMixin model through the registry and driven through the triggers bound onto the model.",
     "Coq proof (allowed_events exact and duplicate-free, unknown event frame) + differential correspondence + attribute probe",
     "DESIGN.md 5 C13",
     "events (all declared events) is compared through the styles only.  One genuine defect repaired (fix: e53a549).")
